@@ -85,13 +85,21 @@ def run(tier: str, seed: int, t0: float) -> int:
     # ---- G+T small scope
     sch, js, docs = universe.tlc_docs("s1t", universe.bounds(4 if not thorough else 5), stats)
     real = [proj.unproj(sch, d) for d in docs]
+    # shaped documents beyond the token bound: three and four text runs with alternating marks in one textblock (a
+    # merged mark step can make them all alike at once)
+    em = sch.marks["em"].create()
+    for runs in ((("a", 0), ("b", 1), ("c", 0)), (("a", 1), ("b", 0), ("c", 1), ("d", 0)), (("a", 0), ("b", 1), ("c", 0), ("d", 1))):
+        rd_ = sch.node("doc", None, [sch.node("p", None, [sch.text(ch, [em] if m else []) for ch, m in runs])])
+        real.append(rd_)
+        docs.append(proj.proj(rd_))
     pairs_dr = list(zip(docs, real))
     cuts = [c for c in all_cuts(sch, real) if len(c[1]["toks"]) <= 3]
     b = trace.Batch(js)
     budget = 2500 if not thorough else 30000
     n = 0
-    order = list(range(len(docs)))
+    order = list(range(len(docs) - 3))
     rng.shuffle(order)
+    order = [len(docs) - 3, len(docs) - 2, len(docs) - 1] + order          # the shaped documents first
     for k in order:
         rd = real[k]
         for s1 in small_steps(sch, rd, rng.sample(cuts, min(len(cuts), 6)), rng, 25):
